@@ -291,6 +291,10 @@ def run_harness(h, opts):
                 res["covers_unsat"].append(ent)
             continue
         res["checks"] += 1
+        if st == "FAILURE" and opts.get("ignore_checks") and re.search(opts["ignore_checks"], ent["property"] or ""):
+            # a documented artefact of the verification model for this harness (see props.py), not a property of the crate
+            res["ignored_model_checks"] = res.get("ignored_model_checks", 0) + 1
+            continue
         if st == "FAILURE":
             if pc == "unwind" or "unwinding assertion" in ent["description"]:
                 res["unwind_failed"].append(ent)
